@@ -223,9 +223,11 @@ _GENERIC = {}
 
 def generic_verdict(ctx, d):
     """(True | False | None, statement, reason) for a generic driver, decided once per run"""
-    key = (id(ctx.repo), d.kind)
-    if key in _GENERIC:
-        return _GENERIC[key]
+    # (kept on the Repo object itself: an id() can be reused by a later Repo)
+    cache = ctx.repo.__dict__.setdefault('_generic_verdicts', {})
+    key = d.kind
+    if key in cache:
+        return cache[key]
     try:
         layout = fields_tuple_layout(ctx.repo)
         code = extract(d.node, _DriverEvents(d, layout), callee=method_callee(ctx.repo, ctx.repo.cls('Packet')) if d.origin == 'generic' else None)
@@ -235,7 +237,7 @@ def generic_verdict(ctx, d):
         diff = cmp_[1:] if cmp_[0] == 'differs' else None
     except Undecided as e:
         res = (None, d.label, str(e))
-        _GENERIC[key] = res
+        cache[key] = res
         return res
     if diff is None:
         res = (True, '%s: event language' % d.label,
@@ -248,8 +250,7 @@ def generic_verdict(ctx, d):
         else:
             why = 'after [%s] the discipline requires [%s], which the driver cannot do there' % (' '.join(trace[:-1]), trace[-1])
         res = (False, '%s: %s' % (d.label, ' '.join(trace)[:300]), why)
-    _GENERIC.clear()
-    _GENERIC[key] = res
+    cache[key] = res
     return res
 
 
